@@ -299,12 +299,12 @@ func runC19(x *Ctx) {
 				x.C.Unresolved("C19.R6", "shape:"+pk+"."+opt, x.pos(outer), fmt.Sprintf("expected one straight path returning the option, found %d", len(ops)))
 				continue
 			}
-			inner, bind := x.closureEnv(ops[0], ops[0].Results()[0])
-			if inner == nil {
+			rf := x.returnedFunc(ops[0], ops[0].Results()[0])
+			if rf == nil {
 				x.C.Unresolved("C19.R6", "option-value:"+pk+"."+opt, x.pos(outer), "the value returned is not a function literal, function or method value: "+ops[0].Results()[0].String())
 				continue
 			}
-			ps := x.paths("C19.R6", inner)
+			ps := rf.Paths
 			ok := len(ps) == 1 && ps[0].End == paths.EndReturn
 			detail := ""
 			if ok {
@@ -313,13 +313,9 @@ func runC19(x *Ctx) {
 					ok = false
 					detail = "returns " + r.String()
 				} else {
-					got := []string{r.Args[0].String()}
-					for _, a := range r.Args[1:] {
-						s := a.String()
-						for fv, par := range bind {
-							s = strings.ReplaceAll(s, fv, par)
-						}
-						got = append(got, s)
+					var got []string
+					for _, a := range r.Args {
+						got = append(got, rf.Tr(a))
 					}
 					want := []string{"arg0.meta", "arg0", "arg1", "arg2"}
 					if strings.Join(got, ",") != strings.Join(want, ",") {
